@@ -46,7 +46,7 @@ type Query {
   named: [Named]
   owned: [Owned!]
   people: [Person!]!
-  echo(s: String = "d", f: Filter, id: ID): String
+  echo(s: String = "d", f: Filter, id: ID, any: Any): String
   count: Int!
   color(c: Color = RED): Color
   need(n: Int! = 1): Int!
@@ -383,6 +383,8 @@ OPERATIONS = [
     ("{ named { tag } pet { ... on Named { tag } } owned { ... on Named { tag } } }", {}),
     ("query ($p: String, $q: String = \"q\") { named { tag(prefix: $p) t2: tag(prefix: $q) ...T } people { best { ...T } pets { ...T } } } fragment T on Named { t3: tag }", {}),
     ("{ people { pets { ... on Named { tag } ... on Dog { l: tag(loud: true) } } best { ... on Named { tag(prefix: \"x\") } } } me { tag } }", {}),
+    # one fragment spread inside an inline fragment AND next to it (visited once per selection set, whatever the nesting)
+    ("{ ... { ...X } ...X me { ... { ...Y } ...Y ... on Person { ... { ...Y } } } } fragment X on Query { count } fragment Y on Person { strict name }", {}),
     # argument coercion failing at execution time (explicit null for a variable with a default) on a NON-NULL field: one error for that position
     ("query ($n: Int = 1) { need(n: $n) count me { name } }", {"n": None}),
     ("query ($n: Int = 1) { a: need(n: $n) b: need(n: 2) }", {"n": None}),
@@ -421,6 +423,8 @@ def worlds_for(schema, query, variables, operation_name=None, with_boom=False, l
             # a resolver result the leaf type cannot serialise: not a field error - the whole request fails, in every configuration
             if getattr(inner, "name", None) in ("Int", "Color"):
                 out.append(("badleaf@%s" % (path,), {path: ("value", "NOT_A_MEMBER")}))
+            if getattr(inner, "name", None) == "Int":
+                out.append(("boolleaf@%s" % (path,), {path: ("value", True)}))      # a boolean for an Int leaf: answered as 1, never as `true`
     # the same error instance raised at two positions (first and last resolved leaf, and two neighbours): fixed members, never sampled away
     leaves = [p for p, t in paths if not any(q[:len(p)] == p and q != p for q, _t in paths)]
     fixed = []
